@@ -164,7 +164,6 @@ def check_mapping(ctx):
     if outer and mapname and len(fn.params) >= 3:
         lo = outer[0]
         cold = ast.unparse(lo.target)
-        ok_outer = ast.unparse(lo.iter) == "self.cold_arms"
         inner = [s for s in lo.body if isinstance(s, ast.For)]
         ok_inner = False
         cand = None
@@ -173,6 +172,7 @@ def check_mapping(ctx):
 
         def T(e):
             return " ".join(ast.unparse(_inline(fn.node, e, stop={cand, mapname})).split())
+        ok_outer = T(lo.iter) == "self.cold_arms"
         form = _candidates(lo)
         if form is not None:
             cand, a, val, src, pos = form
